@@ -44,6 +44,7 @@ func (e *Engine) runInits(ld *Loaded) *State {
 		}()
 	}
 	e.assumes = nil
+	e.assumePCs = nil
 	e.axioms = nil
 	e.axiomSeen = map[int]bool{}
 	e.inInit = false
@@ -57,15 +58,16 @@ func (e *Engine) runInits(ld *Loaded) *State {
 }
 
 type FuncResult struct {
-	Fn       string
-	Contract *Contract
-	Obls     []*Obligation
-	Err      string
-	Notes    map[string]int
-	Unmod    map[string]int
-	Models   []string
-	Axioms   []*Term
-	Assumes  []*Term
+	Fn        string
+	Contract  *Contract
+	Obls      []*Obligation
+	Err       string
+	Notes     map[string]int
+	Unmod     map[string]int
+	Models    []string
+	Axioms    []*Term
+	Assumes   []*Term
+	AssumePCs []*Term
 }
 
 // verifyFunction generates the obligations of one function under contract.
@@ -74,6 +76,7 @@ func (e *Engine) verifyFunction(c *Contract, init *State) (res *FuncResult) {
 	res = &FuncResult{Fn: shortFn(fn), Contract: c}
 	// per-function reset
 	e.assumes = nil
+	e.assumePCs = nil
 	e.axioms = nil
 	e.axiomSeen = map[int]bool{}
 	e.loadedFacts = map[int]bool{}
@@ -113,6 +116,7 @@ func (e *Engine) verifyFunction(c *Contract, init *State) (res *FuncResult) {
 		}
 		res.Axioms = e.axioms
 		res.Assumes = e.assumes
+		res.AssumePCs = e.assumePCs
 		res.Notes = e.notes
 		res.Unmod = e.unmodelled
 		for k := range e.usedModels {
@@ -192,6 +196,24 @@ func (e *Engine) verifyFunction(c *Contract, init *State) (res *FuncResult) {
 			o.clause = cl
 		}
 	}
+	// automatic postcondition: results do not point to package-level objects
+	// (objects allocated by package initialisation).  Callers rely on it to
+	// keep results apart from such objects syntactically.
+	for i, rv := range resArgs {
+		var obj *Term
+		switch rv.Sort {
+		case LocS:
+			obj = LocObj(rv)
+		case SliceS:
+			obj = LocObj(SliceBase(rv))
+		}
+		if obj != nil {
+			g := Or(Eq(obj, IntT(0)), Ge(obj, e.inputLow))
+			if !Implies(pcOut, g).IsTrue() {
+				e.addObl(nil, "ensures", fmt.Sprintf("auto-result%d-not-package-level", i), c.allProps(), pcOut, g, strings.TrimPrefix(c.File, "/repo/"))
+			}
+		}
+	}
 	// vacuity guards: the preconditions are satisfiable and a normal exit is reachable
 	e.addCover("cover", "pre", True)
 	e.addCover("cover", "exit", pcOut)
@@ -217,6 +239,7 @@ func (c *Contract) allProps() []string {
 		}
 	}
 	add(c.Requires)
+	add(c.OnStore)
 	add(c.Ensures)
 	add(c.Modifies)
 	for _, l := range c.Loops {
